@@ -347,6 +347,67 @@ def o4(h, st):
     h.done()
 
 
+# O4b QubitHamiltonian / QubitOperator: binary and scalar forms that go through the inherited operators (which call the overridden += / ==) ------------------
+
+@contract("C16", "O4b.QubitHamiltonian.scalar_and_binary", level="S", native_samples=coef_samples,
+          structures=lambda tier: [{"cls": c, "op": op, "side": side, "k": k} for c in ("ham", "tangelo") for op in ("add", "sub", "mul", "truediv", "neg") for side in ("left", "right")
+                                   for k in ("2.0", "0", "1", "-1")
+                                   if not (op in ("truediv", "neg") and side == "right") and not (op == "neg" and k != "2.0") and not (op == "truediv" and k == "0")]
+                                  + [{"cls": c, "op": op, "other": o} for c in ("ham", "tangelo") for op in ("add", "sub", "mul", "sum") for o in ("same", "plain", "of")],
+          targets=[(OP, "QubitHamiltonian.__iadd__"), (OP, "QubitHamiltonian.__init__")])
+def o4b(h, st):
+    """q+k, k+q, q-k, k-q, q*k, k*q, q/k, -q (k generic and the neutral elements 0, 1, and -1) and q+r, q-r, q*r, sum([q, r, q]) for an annotated QubitHamiltonian / a plain
+    Tangelo QubitOperator q: algebraically correct value, operands unchanged, the result is a NEW object sharing no term dictionary with an operand (an in-place update of the
+    result does not reach the operands), and a QubitHamiltonian result carries the annotations (mapping, ordering) of q"""
+    ca = [h.real(f"a{i}") for i in range(2)]
+    cb = [h.real(f"b{i}") for i in range(2)]
+    for c in ca + cb:
+        h.assume(abs(c) > 0.01)
+    kind = ("ham", "JW", True) if st["cls"] == "ham" else "tangelo"
+    a = mk_qubit(kind, [0, 1], ca)
+    sa, ta = state(a), dict(a.terms)
+    op = st["op"]
+    b = None
+    if "other" in st:
+        b = mk_qubit(kind if st["other"] == "same" else ("tangelo" if st["other"] == "plain" else "of"), [1, 2], cb)
+        sb, tb = state(b), dict(b.terms)
+        if op == "sum":
+            r = h.I.call_value(sum, [[a, b, a]], {}) if h.symbolic else sum([a, b, a])
+            exp = expected_terms("add", expected_terms("add", ta, tb), ta)
+        else:
+            r = py_binop(h, op, a, b)
+            exp = expected_terms(op, ta, tb, fermion=False)
+    elif op == "neg":
+        import ast
+        r = h.I.eval(ast.parse("-x", mode="eval").body, _env(h, {"x": a})) if h.symbolic else -a
+        exp = {t: -c for t, c in ta.items()}
+    else:
+        k = {"2.0": 2.0, "0": 0, "1": 1, "-1": -1}[st["k"]]
+        r = py_binop(h, op, a, k) if st["side"] == "left" else py_binop(h, op, k, a)
+        if op == "add":
+            exp = dict(ta)
+            exp[()] = exp.get((), 0) + k
+        elif op == "sub":
+            exp = dict(ta) if st["side"] == "left" else {t: -c for t, c in ta.items()}
+            exp[()] = exp.get((), 0) + (-k if st["side"] == "left" else k)
+        elif op == "mul":
+            exp = {t: c * k for t, c in ta.items()}
+        else:
+            exp = {t: c / k for t, c in ta.items()}
+    h.check("left operand unchanged", state(a) == sa)
+    h.check("result is a new object", r is not a and r is not b)
+    h.check("result shares no term dictionary with an operand", r.terms is not a.terms and (b is None or r.terms is not b.terms))
+    check_terms(h, f"{op}", dict(r.terms), exp)
+    if b is not None:
+        h.check("right operand unchanged", state(b) == sb)
+    if st["cls"] == "ham":
+        h.check("annotations carried to the result", type(r).__name__ == "QubitHamiltonian" and r.mapping == "JW" and r.up_then_down is True)
+    # a later in-place update of the result must not reach the operands
+    r *= 3.0
+    h.check("in-place update of the result leaves the operands unchanged", state(a) == sa and (b is None or state(b) == sb))
+    h.done()
+
+
 # O5 conversions ------------------------------------------------------------------------------------------------------
 
 @contract("C16", "O5.conversions", level="S", native_samples=coef_samples, structures=lambda tier: [{"spec": s} for s in ([0], [0, 1, 3], [2, 4])],
@@ -509,7 +570,8 @@ PROPERTY = {
                    "proved for every coefficient value (symbolic coefficients; exact normal forms) on each enumerated operator shape and operand-class "
                    "combination, executing Tangelo's overrides from their AST and openfermion's SymbolicOperator natively (assumed contract). The "
                    "array-based MultiformOperator works on numpy arrays, outside the verifier's subset: bounded exhaustive native contract runs "
-                   "(labelled B), plus the exhaustive 16-entry Pauli phase table read from the source.",
+                   "(labelled B), plus the exhaustive 16-entry Pauli phase table decided by executing the real product. Scalar forms include the neutral elements "
+                   "(0, 0.0, numpy 0, 1, 1.0) and -1; QubitOperator / QubitHamiltonian binary and scalar forms with Tangelo and openfermion operands on the right (O4b).",
     "bounds": {"quick": "operators of 1-2 terms from 5 fermionic / 5 Pauli words; all operand class combinations; array form: pairs of operators with <= 2 terms on 2 qubits (every 29th pair)",
                "thorough": "every 5th pair"},
     "assumptions": ["openfermion SymbolicOperator arithmetic executed natively on symbolic coefficients through operator overloading (assumed contract)",
